@@ -64,6 +64,18 @@ func c14GenResp(t *rapid.T, sendJoin bool) c14RespCase {
 		}
 		c.Join = rapid.SampledFrom(cands).Draw(t, "join")
 		state = w.before[c.Join]
+		if c14Chance(t, "banJoiner", 20) {
+			// the returned state has the joiner BANNED (a ban the join does not cite): the join's own auth
+			// events may allow it, the returned state does not
+			joiner := r.Events[c.Join].Sender
+			if joiner != grUsers[0] {
+				ban := w.addAt(r.Events[c.Join].Parent, state, "m.room.member", grUsers[0], raSK(joiner), jobj("membership", jstr("ban")), false)
+				if !ban.Rejected {
+					state = c14CopyState(state)
+					state[grKey("m.room.member", joiner)] = ban.Idx
+				}
+			}
+		}
 		if na := len(c14AuthIDs(r.Version, r.Events[c.Join].Tree)); na > 0 && c14Chance(t, "joinOmit", 17) {
 			c.JoinOmit = rapid.IntRange(0, na-1).Draw(t, "joinOmitAt")
 		}
